@@ -1,9 +1,12 @@
 package verifsim
 
 import (
+	"fmt"
 	"io"
 	"io/fs"
 	"os"
+	"path/filepath"
+	"strings"
 	"sync"
 	"time"
 )
@@ -20,10 +23,10 @@ type File interface {
 
 // SimFile adapts a reader/writer pair to File.
 type SimFile struct {
-	R      io.Reader
-	W      io.Writer
-	mu     sync.Mutex
-	Closed bool
+	R       io.Reader
+	W       io.Writer
+	mu      sync.Mutex
+	Closed  bool
 	OnClose func()
 }
 
@@ -397,4 +400,21 @@ func fsCreateHook(path string) {
 			on(path)
 		}
 	}
+}
+
+// FsCreateTemp stands in for os.CreateTemp (the trace log file): the same name in every run of a scenario.
+func FsCreateTemp(dir, pattern string) (*os.File, error) {
+	w := cur.Load()
+	if w == nil {
+		return os.CreateTemp(dir, pattern)
+	}
+	if dir == "" {
+		dir = os.TempDir()
+	}
+	w.mu.Lock()
+	w.temps++
+	n := w.temps
+	w.mu.Unlock()
+	name := strings.Replace(pattern, "*", fmt.Sprintf("sim%04d", n), 1)
+	return os.OpenFile(filepath.Join(dir, name), os.O_RDWR|os.O_CREATE|os.O_TRUNC, 0600)
 }
